@@ -91,7 +91,7 @@ Definition nondestructive (o : op) : bool :=
   match o with
   | OList _ _ | OCons _ _ _ | OListStar _ _ _ | OCdr _ _ | ONthcdr _ _ _ | OMember _ _ _ | OLast _ _ | OButlast _ _
   | OSubseq _ _ _ _ | OCopy _ _ | OReverse _ _ | OAppend _ _ _ | OAdd _ _ _ | OPush _ _ | OPop _ | ORemove _ _ _
-  | OMapcar _ _ _ | ONconc _ _ _ => true
+  | OMapcar _ _ _ | ORemoveIf _ _ _ _ _ | ONconc _ _ _ => true
   | _ => false
   end.
 
@@ -366,6 +366,7 @@ Proof.
     rewrite setv_upd. apply (inv_alias_heap nv st _ dst src _ HI Hd); [apply heap_grows_write_all|exact Es].
   - (* remove *) apply inv_fresh'; assumption.
   - (* mapcar *) apply inv_fresh'; assumption.
+  - (* remove-if *) apply inv_fresh'; assumption.
 Qed.
 
 (* ---------- histories ---------- *)
@@ -417,7 +418,7 @@ Qed.
 Definition fresh_op (o : op) : bool :=
   match o with
   | OList _ _ | OCons _ _ _ | OPush _ _ | OCopy _ _ | OButlast _ _ | OAppend _ _ _ | OAdd _ _ _ | ORemove _ _ _
-  | OMapcar _ _ _ => true
+  | OMapcar _ _ _ | ORemoveIf _ _ _ _ _ => true
   | _ => false
   end.
 Lemma live_upd_same st h' d o : d < length (vars st) -> live (upd st h' d o) d = norm o.
@@ -482,3 +483,29 @@ Lemma repaired_examples :
   guard_ops 4 (init 4) ex_subseq_copy = true /\
   map (vcontents (run_ops (init 4) ex_subseq_copy)) [0; 1] = [[1; 2; 3]; [7; 3]]%Z.
 Proof. repeat split; vm_compute; reflexivity. Qed.
+
+(* ---------- remove-if / delete-if: the value ---------- *)
+Lemma remove_n_none p l : remove_n p None l = filter (fun y => negb (holds p y)) l.
+Proof. induction l as [|x l IH]; [reflexivity|]. cbn [remove_n filter]. destruct (holds p x); cbn [negb]; rewrite IH; reflexivity. Qed.
+Lemma filter_rev_comm {A} (f : A -> bool) l : filter f (rev l) = rev (filter f l).
+Proof.
+  induction l as [|x l IH]; [reflexivity|]. cbn [rev filter]. rewrite filter_app, IH. cbn [filter].
+  destruct (f x); cbn [rev]; [reflexivity|apply app_nil_r].
+Qed.
+(* without :count the result is the list of the elements that do not satisfy the predicate, in order, whether
+   the scan runs from the front or from the end *)
+Lemma remove_if_filter p fe l : remove_if p None fe l = filter (fun y => negb (holds p y)) l.
+Proof.
+  unfold remove_if. destruct fe; [|apply remove_n_none]. rewrite remove_n_none, filter_rev_comm, rev_involutive. reflexivity.
+Qed.
+(* with :count the result is never longer than the argument and loses at most n elements *)
+Lemma remove_n_length p n l : length (remove_n p n l) <= length l /\ forall m, n = Some m -> length l <= length (remove_n p n l) + m.
+Proof.
+  revert n. induction l as [|x l IH]; intros n; [cbn; split; [lia|intros; lia]|].
+  cbn [remove_n]. destruct (holds p x).
+  - destruct n as [[|m]|].
+    + destruct (IH (Some 0)) as [A B]. cbn [length]. split; [lia|]. intros m E. injection E as <-. specialize (B 0 eq_refl). lia.
+    + destruct (IH (Some m)) as [A B]. cbn [length]. split; [lia|]. intros m' E. injection E as <-. specialize (B m eq_refl). lia.
+    + destruct (IH None) as [A _]. cbn [length]. split; [lia|]. intros m E. discriminate E.
+  - destruct (IH n) as [A B]. cbn [length]. split; [lia|]. intros m E. specialize (B m E). lia.
+Qed.
